@@ -33,6 +33,15 @@ impl<Item, Err, O: Observer<Item, Err>> Observer<Item, Err>
   fn is_finished(&self) -> bool { true }
 }
 
+/// C03.S14: vacates a shared slot for the duration of a call and refills it afterwards
+pub fn ctl_flush_unlocked<T>(cell: &MutArc<Option<T>>, flush: impl FnOnce(&mut T)) {
+  let taken = cell.rc_deref_mut().take();
+  if let Some(mut inner) = taken {
+    flush(&mut inner);
+    *cell.rc_deref_mut() = Some(inner);
+  }
+}
+
 /// answers `false` when its slot is empty
 pub struct HalfFinishedObserver<O>(Option<O>);
 impl<Item, Err, O: Observer<Item, Err>> Observer<Item, Err>
